@@ -1,2 +1,618 @@
-(* Proofs/AlignProofs.v *)
+(* Proofs/AlignProofs.v — the pure layer of the alignment proofs.
+   [pcell]: the naive doubly-recursive DP cell on reversed prefixes, on which the
+   inductions are done; the row-based executable table of Model/Align.v equals
+   it (memoisation correctness); indexing of the flat block list. *)
 From Bio Require Import Base.
+From Bio.Model Require Import Align.
+From Bio.Spec Require Import AlignSpec.
+Open Scope Z_scope.
+
+Definition is_nil {A} (l : list A) : bool := match l with [] => true | _ => false end.
+
+Section Pure.
+Variable w : byte -> byte -> Z.          (* total weights *)
+Variable clamp : cell -> cell.
+
+Definition opn (c : bool) : Z := if c then w Gap Gap else 0.
+
+(* cell (i, j) as a function of the reversed prefixes a[0..i), b[0..j) *)
+Fixpoint pcell (ra : bytes) : bytes -> cell :=
+  fix inner (rb : bytes) : cell :=
+  match ra, rb with
+  | [], [] => (0, SNone)
+  | [], y :: rb' => clamp (fst (inner rb') + w Gap y + opn (is_nil rb'), SIns)
+  | x :: ra', [] => clamp (fst (pcell ra' []) + w x Gap + opn (is_nil ra'), SDel)
+  | x :: ra', y :: rb' =>
+    clamp (decide (fst (pcell ra' rb') + w x y)
+                  (fst (pcell ra' rb) + w x Gap + opn (negb (is_del (snd (pcell ra' rb)))))
+                  (fst (inner rb') + w Gap y + opn (negb (is_ins (snd (inner rb'))))))
+  end.
+
+Lemma pcell_nil_nil : pcell [] [] = (0, SNone).
+Proof. reflexivity. Qed.
+Lemma pcell_nil_cons : forall y rb,
+  pcell [] (y :: rb) = clamp (fst (pcell [] rb) + w Gap y + opn (is_nil rb), SIns).
+Proof. reflexivity. Qed.
+Lemma pcell_cons_nil : forall x ra,
+  pcell (x :: ra) [] = clamp (fst (pcell ra []) + w x Gap + opn (is_nil ra), SDel).
+Proof. reflexivity. Qed.
+Lemma pcell_cons_cons : forall x ra y rb,
+  pcell (x :: ra) (y :: rb) =
+  clamp (decide (fst (pcell ra rb) + w x y)
+                (fst (pcell ra (y :: rb)) + w x Gap + opn (negb (is_del (snd (pcell ra (y :: rb))))))
+                (fst (pcell (x :: ra) rb) + w Gap y + opn (negb (is_ins (snd (pcell (x :: ra) rb)))))).
+Proof. reflexivity. Qed.
+
+(* ---- the table as a specification -------------------------------------- *)
+Fixpoint cells_row (ra rpre suf : bytes) : list cell :=
+  match suf with
+  | [] => []
+  | y :: s => pcell ra (y :: rpre) :: cells_row ra (y :: rpre) s
+  end.
+
+Definition row_spec (ra b : bytes) : list cell := pcell ra [] :: cells_row ra [] b.
+
+Fixpoint rows_spec (b rpre suf : bytes) : list (list cell) :=
+  match suf with
+  | [] => []
+  | x :: s => row_spec (x :: rpre) b :: rows_spec b (x :: rpre) s
+  end.
+
+Definition table_spec (a b : bytes) : list (list cell) := row_spec [] b :: rows_spec b [] a.
+
+(* ---- the executable table equals it ------------------------------------- *)
+Variable g : scorer.
+
+Definition agrees (a b : bytes) : Prop :=
+  forall x y, In x (Gap :: a) -> In y (Gap :: b) -> g x y = Ok (w x y).
+
+Lemma agrees_gg : forall a b, agrees a b -> g Gap Gap = Ok (w Gap Gap).
+Proof. intros a b H. apply H; left; reflexivity. Qed.
+
+Lemma agrees_tl_a : forall x a b, agrees (x :: a) b -> agrees a b.
+Proof. intros x a b H u v Hu Hv. apply H; [|exact Hv]. destruct Hu; [left|right; right]; assumption. Qed.
+
+Lemma agrees_tl_b : forall y a b, agrees a (y :: b) -> agrees a b.
+Proof. intros y a b H u v Hu Hv. apply H; [exact Hu|]. destruct Hv; [left|right; right]; assumption. Qed.
+
+Lemma add_open_ok : forall c s, g Gap Gap = Ok (w Gap Gap) -> add_open g c s = Ok (s + opn c).
+Proof.
+  intros c s H. unfold add_open, opn. destruct c.
+  - rewrite H. reflexivity.
+  - rewrite Z.add_0_r. reflexivity.
+Qed.
+
+Lemma row0_tail_spec : forall suf rpre,
+  g Gap Gap = Ok (w Gap Gap) ->
+  (forall y, In y suf -> g Gap y = Ok (w Gap y)) ->
+  row0_tail g clamp (fst (pcell [] rpre)) (is_nil rpre) suf = Ok (cells_row [] rpre suf).
+Proof.
+  induction suf as [|y s IH]; intros rpre Hgg Hy; [reflexivity|].
+  cbn [row0_tail cells_row]. rewrite (Hy y (or_introl eq_refl)). cbn [obind].
+  rewrite add_open_ok by exact Hgg. cbn [obind].
+  rewrite <- pcell_nil_cons.
+  change false with (is_nil (y :: rpre)).
+  rewrite IH; [reflexivity|exact Hgg|]. intros u Hu. apply Hy. right. exact Hu.
+Qed.
+
+Lemma row0_spec : forall a b, agrees a b -> row0 g clamp b = Ok (row_spec [] b).
+Proof.
+  intros a b H. unfold row0.
+  change 0 with (fst (pcell [] [])) at 1. change true with (@is_nil N []).
+  rewrite row0_tail_spec.
+  - reflexivity.
+  - eapply agrees_gg; eauto.
+  - intros y Hy. apply H; [left; reflexivity|right; exact Hy].
+Qed.
+
+Lemma row_mid_spec : forall suf rpre x ra,
+  g Gap Gap = Ok (w Gap Gap) -> g x Gap = Ok (w x Gap) ->
+  (forall y, In y suf -> g Gap y = Ok (w Gap y) /\ g x y = Ok (w x y)) ->
+  row_mid g clamp x (pcell ra rpre) (pcell (x :: ra) rpre) (combine suf (cells_row ra rpre suf))
+  = Ok (cells_row (x :: ra) rpre suf).
+Proof.
+  induction suf as [|y s IH]; intros rpre x ra Hgg Hx Hy; [reflexivity|].
+  cbn [cells_row combine row_mid].
+  destruct (Hy y (or_introl eq_refl)) as [Hgy Hxy].
+  rewrite Hxy. cbn [obind]. rewrite Hx. cbn [obind].
+  rewrite add_open_ok by exact Hgg. cbn [obind].
+  rewrite Hgy. cbn [obind].
+  rewrite add_open_ok by exact Hgg. cbn [obind].
+  rewrite <- pcell_cons_cons.
+  rewrite IH; [reflexivity|exact Hgg|exact Hx|].
+  intros u Hu. apply Hy. right. exact Hu.
+Qed.
+
+Lemma next_row_spec : forall a b x ra,
+  agrees a b -> In x a ->
+  next_row g clamp b (is_nil ra) (row_spec ra b) x = Ok (row_spec (x :: ra) b).
+Proof.
+  intros a b x ra H Hx. unfold next_row, row_spec.
+  assert (Hgg : g Gap Gap = Ok (w Gap Gap)) by (eapply agrees_gg; eauto).
+  assert (HxG : g x Gap = Ok (w x Gap)) by (apply H; [right; exact Hx|left; reflexivity]).
+  rewrite HxG. cbn [obind]. rewrite add_open_ok by exact Hgg. cbn [obind].
+  rewrite <- pcell_cons_nil.
+  rewrite row_mid_spec; [reflexivity|exact Hgg|exact HxG|].
+  intros y Hy. split; apply H.
+  - left; reflexivity.
+  - right; exact Hy.
+  - right; exact Hx.
+  - right; exact Hy.
+Qed.
+
+Lemma rows_from_spec : forall a b suf rpre,
+  agrees a b -> incl suf a ->
+  rows_from g clamp b (is_nil rpre) (row_spec rpre b) suf = Ok (rows_spec b rpre suf).
+Proof.
+  intros a b suf. induction suf as [|x s IH]; intros rpre H Hin; [reflexivity|].
+  cbn [rows_from rows_spec].
+  rewrite (next_row_spec a b x rpre H) by (apply Hin; left; reflexivity).
+  cbn [obind]. change false with (is_nil (x :: rpre)).
+  rewrite IH; [reflexivity|exact H|]. intros u Hu. apply Hin. right. exact Hu.
+Qed.
+
+Lemma table_ok : forall a b, agrees a b -> table g clamp a b = Ok (table_spec a b).
+Proof.
+  intros a b H. unfold table. rewrite (row0_spec a b H). cbn [obind].
+  change true with (@is_nil N []).
+  rewrite (rows_from_spec a b a [] H) by apply incl_refl. reflexivity.
+Qed.
+
+Lemma blocks_ok : forall a b, agrees a b ->
+  blocks_of g clamp a b = Ok (concat (table_spec a b)).
+Proof. intros a b H. unfold blocks_of. rewrite (table_ok a b H). reflexivity. Qed.
+
+(* ---- indexing ------------------------------------------------------------- *)
+Lemma cells_row_length : forall ra suf rpre, length (cells_row ra rpre suf) = length suf.
+Proof. induction suf; intros; cbn; [reflexivity|rewrite IHsuf; reflexivity]. Qed.
+
+Lemma row_spec_length : forall ra b, length (row_spec ra b) = S (length b).
+Proof. intros. unfold row_spec. cbn. rewrite cells_row_length. reflexivity. Qed.
+
+Lemma cells_row_nth : forall ra s1 rpre y s2,
+  nth_error (cells_row ra rpre (s1 ++ y :: s2)) (length s1) = Some (pcell ra (y :: rev s1 ++ rpre)).
+Proof.
+  induction s1 as [|z s1 IH]; intros rpre y s2; [reflexivity|].
+  cbn [app cells_row length nth_error]. rewrite IH. cbn [rev]. rewrite <- app_assoc. reflexivity.
+Qed.
+
+(* any tail rb of rev b is a column of the row *)
+Lemma row_spec_nth : forall ra b pb rb,
+  rev b = pb ++ rb -> nth_error (row_spec ra b) (length rb) = Some (pcell ra rb).
+Proof.
+  intros ra b pb rb H. unfold row_spec. destruct rb as [|y rb']; [reflexivity|].
+  assert (Hb : b = rev rb' ++ y :: rev pb).
+  { rewrite <- (rev_involutive b), H, rev_app_distr. cbn [rev]. rewrite <- app_assoc. reflexivity. }
+  cbn [length nth_error]. rewrite Hb. rewrite <- (rev_length rb').
+  rewrite cells_row_nth. rewrite rev_involutive, app_nil_r. reflexivity.
+Qed.
+
+Lemma rows_spec_length : forall b suf rpre, length (rows_spec b rpre suf) = length suf.
+Proof. induction suf; intros; cbn; [reflexivity|rewrite IHsuf; reflexivity]. Qed.
+
+Lemma rows_spec_nth : forall b s1 rpre x s2,
+  nth_error (rows_spec b rpre (s1 ++ x :: s2)) (length s1) = Some (row_spec (x :: rev s1 ++ rpre) b).
+Proof.
+  induction s1 as [|z s1 IH]; intros rpre x s2; [reflexivity|].
+  cbn [app rows_spec length nth_error]. rewrite IH. cbn [rev]. rewrite <- app_assoc. reflexivity.
+Qed.
+
+Lemma table_spec_nth : forall a b pa ra,
+  rev a = pa ++ ra -> nth_error (table_spec a b) (length ra) = Some (row_spec ra b).
+Proof.
+  intros a b pa ra H. unfold table_spec. destruct ra as [|x ra']; [reflexivity|].
+  assert (Ha : a = rev ra' ++ x :: rev pa).
+  { rewrite <- (rev_involutive a), H, rev_app_distr. cbn [rev]. rewrite <- app_assoc. reflexivity. }
+  cbn [length nth_error]. rewrite Ha. rewrite <- (rev_length ra').
+  rewrite rows_spec_nth. rewrite rev_involutive, app_nil_r. reflexivity.
+Qed.
+
+Lemma table_spec_rows : forall a b, Forall (fun r => length r = S (length b)) (table_spec a b).
+Proof.
+  intros a b. unfold table_spec. constructor; [apply row_spec_length|].
+  generalize (@nil N). induction a as [|x s IH]; intros rpre; cbn; constructor.
+  - apply row_spec_length.
+  - apply IH.
+Qed.
+
+Lemma table_spec_length : forall a b, length (table_spec a b) = S (length a).
+Proof. intros. unfold table_spec. cbn. rewrite rows_spec_length. reflexivity. Qed.
+
+End Pure.
+
+Lemma nth_error_concat : forall {A} (rows : list (list A)) n i j,
+  Forall (fun r => length r = n) rows -> (j < n)%nat ->
+  nth_error (concat rows) (i * n + j) =
+  match nth_error rows i with Some r => nth_error r j | None => None end.
+Proof.
+  intros A rows n. induction rows as [|r rows IH]; intros i j HF Hj.
+  - cbn [concat]. destruct (i * n + j)%nat; destruct i; reflexivity.
+  - inversion HF as [|? ? Hr HF']. subst. destruct i as [|i].
+    + cbn [Nat.mul Nat.add concat nth_error]. rewrite nth_error_app1 by lia. reflexivity.
+    + cbn [concat nth_error]. rewrite nth_error_app2 by (cbn; lia).
+      replace (S i * length r + j - length r)%nat with (i * length r + j)%nat by (cbn; lia).
+      apply IH; assumption.
+Qed.
+
+Lemma concat_length_const : forall {A} (rows : list (list A)) n,
+  Forall (fun r => length r = n) rows -> length (concat rows) = (length rows * n)%nat.
+Proof.
+  intros A rows n H. induction H as [|r rows Hr H IH]; [reflexivity|].
+  cbn. rewrite app_length, IH, Hr. reflexivity.
+Qed.
+
+(* the Go index of cell (|ra|, |rb|) *)
+Definition idx (bn : Z) (ra rb : bytes) : Z := Z.of_nat (length ra) * bn + Z.of_nat (length rb).
+
+Definition bn_of (b : bytes) : Z := Z.of_nat (length b) + 1.
+
+Lemma blocks_lookup : forall w clamp a b pa ra pb rb,
+  rev a = pa ++ ra -> rev b = pb ++ rb ->
+  nth_error (concat (table_spec w clamp a b)) (Z.to_nat (idx (bn_of b) ra rb))
+  = Some (pcell w clamp ra rb).
+Proof.
+  intros w clamp a b pa ra pb rb Ha Hb.
+  assert (Hlen : (length rb <= length b)%nat).
+  { rewrite <- (rev_length b), Hb, app_length. lia. }
+  unfold idx, bn_of.
+  replace (Z.to_nat (Z.of_nat (length ra) * (Z.of_nat (length b) + 1) + Z.of_nat (length rb)))
+    with (length ra * S (length b) + length rb)%nat by lia.
+  rewrite (nth_error_concat _ (S (length b))); [|apply table_spec_rows|lia].
+  rewrite (table_spec_nth w clamp a b pa ra Ha).
+  apply (row_spec_nth w clamp ra b pb rb Hb).
+Qed.
+
+Lemma blocks_length : forall w clamp a b,
+  length (concat (table_spec w clamp a b)) = (S (length a) * S (length b))%nat.
+Proof.
+  intros. rewrite (concat_length_const _ (S (length b))) by apply table_spec_rows.
+  rewrite table_spec_length. reflexivity.
+Qed.
+
+(* ======================================================================== *)
+(* Pure forward score, the snoc lemmas, and the bridge to the spec's score.   *)
+Section Score.
+Variable w : byte -> byte -> Z.
+
+Definition cdel (p : step) (x : byte) : Z := w x Gap + opn w (negb (is_del p)).
+Definition cins (p : step) (y : byte) : Z := w Gap y + opn w (negb (is_ins p)).
+
+Fixpoint fscore (prev : step) (a b : bytes) (al : list step) : option Z :=
+  match al with
+  | [] => Some 0
+  | SMatch :: r =>
+    match a, b with
+    | x :: a', y :: b' => option_map (Z.add (w x y)) (fscore SMatch a' b' r)
+    | _, _ => None
+    end
+  | SDel :: r =>
+    match a with
+    | x :: a' => option_map (Z.add (cdel prev x)) (fscore SDel a' b r)
+    | [] => None
+    end
+  | SIns :: r =>
+    match b with
+    | y :: b' => option_map (Z.add (cins prev y)) (fscore SIns a b' r)
+    | [] => None
+    end
+  | SNone :: _ => None
+  end.
+
+(* the last step of [al], or [p] when there is none *)
+Fixpoint lastd (p : step) (al : list step) : step :=
+  match al with [] => p | s :: r => lastd s r end.
+
+Lemma lastd_snoc : forall al p s, lastd p (al ++ [s]) = s.
+Proof. induction al; intros; cbn; [reflexivity|apply IHal]. Qed.
+
+Definition o2o (o : option Z) : outcome Z := match o with Some z => Ok z | None => Err end.
+
+Lemma score_from_fscore : forall g al p a b, agrees w g a b ->
+  score_from g p a b al = o2o (fscore p a b al).
+Proof.
+  intros g. induction al as [|s r IH]; intros p a b H; [reflexivity|].
+  assert (Hgg : g Gap Gap = Ok (w Gap Gap)) by (eapply agrees_gg; eauto).
+  destruct s; cbn [score_from fscore].
+  - reflexivity.
+  - destruct a as [|x a']; [reflexivity|]. destruct b as [|y b']; [reflexivity|].
+    rewrite (H x y) by (right; left; reflexivity). cbn [obind].
+    rewrite IH by (eapply agrees_tl_a; eapply agrees_tl_b; eauto).
+    destruct (fscore SMatch a' b' r); reflexivity.
+  - destruct a as [|x a']; [reflexivity|].
+    rewrite (H x Gap) by (try (right; left; reflexivity); left; reflexivity). cbn [obind].
+    rewrite (add_open_ok w g) by exact Hgg. cbn [obind].
+    rewrite IH by (eapply agrees_tl_a; eauto).
+    destruct (fscore SDel a' b r); reflexivity.
+  - destruct b as [|y b']; [reflexivity|].
+    rewrite (H Gap y) by (try (right; left; reflexivity); left; reflexivity). cbn [obind].
+    rewrite (add_open_ok w g) by exact Hgg. cbn [obind].
+    rewrite IH by (eapply agrees_tl_b; eauto).
+    destruct (fscore SIns a b' r); reflexivity.
+Qed.
+
+Lemma consumes_app : forall al1 al2,
+  consumes (al1 ++ al2) =
+  ((fst (consumes al1) + fst (consumes al2))%nat, (snd (consumes al1) + snd (consumes al2))%nat).
+Proof.
+  induction al1 as [|s r IH]; intros al2.
+  - cbn. destruct (consumes al2); reflexivity.
+  - cbn [app consumes]. rewrite IH. destruct (consumes r), (consumes al2), s; reflexivity.
+Qed.
+
+Lemma consumes_snoc : forall al s i j, consumes al = (i, j) ->
+  consumes (al ++ [s]) =
+  match s with SMatch => (S i, S j) | SDel => (S i, j) | SIns => (i, S j) | SNone => (i, j) end.
+Proof.
+  intros al s i j H. rewrite consumes_app, H. destruct s; cbn; f_equal; lia.
+Qed.
+
+Lemma omap_comm : forall c d (o : option Z),
+  option_map (Z.add c) (option_map (fun z => z + d) o) =
+  option_map (fun z => z + d) (option_map (Z.add c) o).
+Proof. intros. destruct o; cbn; [f_equal; lia|reflexivity]. Qed.
+
+Lemma fscore_snoc_match : forall al p a b x y, consumes al = (length a, length b) ->
+  fscore p (a ++ [x]) (b ++ [y]) (al ++ [SMatch]) = option_map (fun z => z + w x y) (fscore p a b al).
+Proof.
+  induction al as [|s r IH]; intros p a b x y Hc.
+  - cbn in Hc. destruct a; destruct b; try discriminate. cbn. f_equal. lia.
+  - cbn [consumes] in Hc. destruct (consumes r) as [i j] eqn:E. destruct s.
+    + reflexivity.
+    + destruct a as [|x0 a']; [discriminate|]. destruct b as [|y0 b']; [discriminate|].
+      cbn in Hc. injection Hc as Hi Hj. subst i j.
+      cbn [app fscore]. rewrite (IH SMatch a' b' x y eq_refl). apply omap_comm.
+    + destruct a as [|x0 a']; [discriminate|].
+      cbn in Hc. injection Hc as Hi Hj. subst i j.
+      cbn [app fscore]. rewrite (IH SDel a' b x y eq_refl). apply omap_comm.
+    + destruct b as [|y0 b']; [destruct a; discriminate|].
+      cbn in Hc. injection Hc as Hi Hj. subst i j.
+      cbn [app fscore]. rewrite (IH SIns a b' x y eq_refl). apply omap_comm.
+Qed.
+
+Lemma fscore_snoc_del : forall al p a b x, consumes al = (length a, length b) ->
+  fscore p (a ++ [x]) b (al ++ [SDel]) = option_map (fun z => z + cdel (lastd p al) x) (fscore p a b al).
+Proof.
+  induction al as [|s r IH]; intros p a b x Hc.
+  - cbn in Hc. destruct a; destruct b; try discriminate. cbn. f_equal. lia.
+  - cbn [consumes] in Hc. destruct (consumes r) as [i j] eqn:E. cbn [lastd]. destruct s.
+    + reflexivity.
+    + destruct a as [|x0 a']; [discriminate|]. destruct b as [|y0 b']; [discriminate|].
+      cbn in Hc. injection Hc as Hi Hj. subst i j.
+      cbn [app fscore]. rewrite (IH SMatch a' b' x eq_refl). apply omap_comm.
+    + destruct a as [|x0 a']; [discriminate|].
+      cbn in Hc. injection Hc as Hi Hj. subst i j.
+      cbn [app fscore]. rewrite (IH SDel a' b x eq_refl). apply omap_comm.
+    + destruct b as [|y0 b']; [destruct a; discriminate|].
+      cbn in Hc. injection Hc as Hi Hj. subst i j.
+      cbn [app fscore]. rewrite (IH SIns a b' x eq_refl). apply omap_comm.
+Qed.
+
+Lemma fscore_snoc_ins : forall al p a b y, consumes al = (length a, length b) ->
+  fscore p a (b ++ [y]) (al ++ [SIns]) = option_map (fun z => z + cins (lastd p al) y) (fscore p a b al).
+Proof.
+  induction al as [|s r IH]; intros p a b y Hc.
+  - cbn in Hc. destruct a; destruct b; try discriminate. cbn. f_equal. lia.
+  - cbn [consumes] in Hc. destruct (consumes r) as [i j] eqn:E. cbn [lastd]. destruct s.
+    + reflexivity.
+    + destruct a as [|x0 a']; [discriminate|]. destruct b as [|y0 b']; [discriminate|].
+      cbn in Hc. injection Hc as Hi Hj. subst i j.
+      cbn [app fscore]. rewrite (IH SMatch a' b' y eq_refl). apply omap_comm.
+    + destruct a as [|x0 a']; [discriminate|].
+      cbn in Hc. injection Hc as Hi Hj. subst i j.
+      cbn [app fscore]. rewrite (IH SDel a' b y eq_refl). apply omap_comm.
+    + destruct b as [|y0 b']; [destruct a; discriminate|].
+      cbn in Hc. injection Hc as Hi Hj. subst i j.
+      cbn [app fscore]. rewrite (IH SIns a b' y eq_refl). apply omap_comm.
+Qed.
+
+End Score.
+
+(* ======================================================================== *)
+(* Global: the traceback path exists, is valid and scores the cell.            *)
+Lemma decide_cases : forall m d i,
+  (decide m d i = (m, SMatch) /\ d <= m /\ i <= m) \/
+  (decide m d i = (d, SDel) /\ i <= d /\ (m < d \/ m < i)) \/
+  (decide m d i = (i, SIns) /\ d < i /\ (m < d \/ m < i)).
+Proof.
+  intros m d i. unfold decide.
+  destruct (Z.geb_spec m d); destruct (Z.geb_spec m i); cbn [andb];
+    try (left; repeat split; (reflexivity || lia));
+    destruct (Z.geb_spec d i); (right; left; repeat split; (reflexivity || lia))
+                               || (right; right; repeat split; (reflexivity || lia)).
+Qed.
+
+Section GlobalPath.
+Variable w : byte -> byte -> Z.
+Notation pc := (pcell w clamp_none).
+
+Inductive ptr : bytes -> bytes -> list step -> Prop :=
+| ptr_nil : ptr [] [] []
+| ptr_match : forall x ra y rb al,
+    snd (pc (x :: ra) (y :: rb)) = SMatch -> ptr ra rb al -> ptr (x :: ra) (y :: rb) (al ++ [SMatch])
+| ptr_del : forall x ra rb al,
+    snd (pc (x :: ra) rb) = SDel -> ptr ra rb al -> ptr (x :: ra) rb (al ++ [SDel])
+| ptr_ins : forall ra y rb al,
+    snd (pc ra (y :: rb)) = SIns -> ptr ra rb al -> ptr ra (y :: rb) (al ++ [SIns]).
+
+Lemma row0_step : forall rb, negb (is_ins (snd (pc [] rb))) = is_nil rb.
+Proof. destruct rb; reflexivity. Qed.
+
+Lemma col0_step : forall ra, negb (is_del (snd (pc ra []))) = is_nil ra.
+Proof. destruct ra; reflexivity. Qed.
+
+Lemma global_path : forall n ra rb, (length ra + length rb <= n)%nat ->
+  exists al, consumes al = (length ra, length rb)
+    /\ fscore w SNone (rev ra) (rev rb) al = Some (fst (pc ra rb))
+    /\ lastd SNone al = snd (pc ra rb)
+    /\ ptr ra rb al.
+Proof.
+  induction n as [|n IH]; intros ra rb Hn.
+  - destruct ra; destruct rb; cbn in Hn; try lia.
+    exists []. repeat split. constructor.
+  - destruct ra as [|x ra]; destruct rb as [|y rb].
+    + exists []. repeat split. constructor.
+    + destruct (IH [] rb) as (al & Hc & Hs & Hl & Hp); [cbn in *; lia|].
+      exists (al ++ [SIns]).
+      assert (Hcell : pc [] (y :: rb) = (fst (pc [] rb) + w Gap y + opn w (is_nil rb), SIns))
+        by reflexivity.
+      rewrite Hcell. cbn [fst snd]. repeat split.
+      * rewrite (consumes_snoc al SIns _ _ Hc). reflexivity.
+      * cbn [rev]. rewrite fscore_snoc_ins by (rewrite Hc, rev_length; reflexivity).
+        cbn [rev] in Hs. rewrite Hs. cbn [option_map]. f_equal.
+        unfold cins. rewrite Hl, row0_step. lia.
+      * apply lastd_snoc.
+      * apply ptr_ins; [rewrite Hcell; reflexivity|exact Hp].
+    + destruct (IH ra []) as (al & Hc & Hs & Hl & Hp); [cbn in *; lia|].
+      exists (al ++ [SDel]).
+      assert (Hcell : pc (x :: ra) [] = (fst (pc ra []) + w x Gap + opn w (is_nil ra), SDel))
+        by reflexivity.
+      rewrite Hcell. cbn [fst snd]. repeat split.
+      * rewrite (consumes_snoc al SDel _ _ Hc). reflexivity.
+      * cbn [rev]. rewrite fscore_snoc_del by (rewrite Hc, rev_length; reflexivity).
+        cbn [rev] in Hs. rewrite Hs. cbn [option_map]. f_equal.
+        unfold cdel. rewrite Hl, col0_step. lia.
+      * apply lastd_snoc.
+      * apply ptr_del; [rewrite Hcell; reflexivity|exact Hp].
+    + pose (m := fst (pc ra rb) + w x y).
+      pose (d := fst (pc ra (y :: rb)) + w x Gap + opn w (negb (is_del (snd (pc ra (y :: rb)))))).
+      pose (i := fst (pc (x :: ra) rb) + w Gap y + opn w (negb (is_ins (snd (pc (x :: ra) rb))))).
+      assert (Hcell : pc (x :: ra) (y :: rb) = decide m d i) by reflexivity.
+      destruct (decide_cases m d i) as [[E _]|[[E _]|[E _]]]; rewrite E in Hcell; rewrite Hcell; cbn [fst snd].
+      * destruct (IH ra rb) as (al & Hc & Hs & Hl & Hp); [cbn in *; lia|].
+        exists (al ++ [SMatch]). repeat split.
+        -- rewrite (consumes_snoc al SMatch _ _ Hc). reflexivity.
+        -- cbn [rev]. rewrite fscore_snoc_match by (rewrite Hc, !rev_length; reflexivity).
+           rewrite Hs. reflexivity.
+        -- apply lastd_snoc.
+        -- apply ptr_match; [rewrite Hcell; reflexivity|exact Hp].
+      * destruct (IH ra (y :: rb)) as (al & Hc & Hs & Hl & Hp); [cbn in *; lia|].
+        exists (al ++ [SDel]). repeat split.
+        -- rewrite (consumes_snoc al SDel _ _ Hc). reflexivity.
+        -- cbn [rev]. cbn [rev] in Hs.
+           rewrite fscore_snoc_del by (rewrite Hc, rev_length, app_length, rev_length; cbn; f_equal; lia).
+           rewrite Hs. cbn [option_map]. f_equal. unfold cdel. rewrite Hl. subst d. lia.
+        -- apply lastd_snoc.
+        -- apply ptr_del; [rewrite Hcell; reflexivity|exact Hp].
+      * destruct (IH (x :: ra) rb) as (al & Hc & Hs & Hl & Hp); [cbn in *; lia|].
+        exists (al ++ [SIns]). repeat split.
+        -- rewrite (consumes_snoc al SIns _ _ Hc). reflexivity.
+        -- cbn [rev]. cbn [rev] in Hs.
+           rewrite fscore_snoc_ins by (rewrite Hc, rev_length, app_length, rev_length; cbn; f_equal; lia).
+           rewrite Hs. cbn [option_map]. f_equal. unfold cins. rewrite Hl. subst i. lia.
+        -- apply lastd_snoc.
+        -- apply ptr_ins; [rewrite Hcell; reflexivity|exact Hp].
+Qed.
+
+(* ---- the executable traceback follows the path ---------------------------- *)
+Lemma trace_g_zero : forall f bl bn acc, trace_g f bl bn 0 acc = Ok acc.
+Proof. destruct f; reflexivity. Qed.
+
+Lemma trace_g_step : forall f bl bn i acc s st,
+  0 < i -> nth_error bl (Z.to_nat i) = Some (s, st) ->
+  trace_g (S f) bl bn i acc = trace_g f bl bn (move bn i st) (st :: acc).
+Proof.
+  intros f bl bn i acc s st Hi Hn. cbn [trace_g]. unfold cell in *.
+  destruct (Z.leb_spec i 0); [lia|]. rewrite Hn. reflexivity.
+Qed.
+
+Lemma idx_pos : forall bn ra rb, 0 < bn -> (0 < length ra + length rb)%nat -> 0 < idx bn ra rb.
+Proof.
+  intros bn ra rb Hb Hl. unfold idx.
+  assert (0 <= Z.of_nat (length ra) * bn) by (apply Z.mul_nonneg_nonneg; lia).
+  destruct ra as [|x ra].
+  - cbn [length] in *. lia.
+  - cbn [length]. rewrite Nat2Z.inj_succ.
+    assert (0 <= Z.of_nat (length ra) * bn) by (apply Z.mul_nonneg_nonneg; lia). lia.
+Qed.
+
+Lemma trace_g_ptr : forall a b ra rb al, ptr ra rb al ->
+  forall pa pb, rev a = pa ++ ra -> rev b = pb ++ rb ->
+  forall fuel acc, (length ra + length rb <= fuel)%nat ->
+  trace_g fuel (concat (table_spec w clamp_none a b)) (bn_of b) (idx (bn_of b) ra rb) acc = Ok (al ++ acc).
+Proof.
+  intros a b ra rb al Hp. 
+  assert (Hbn : 0 < bn_of b) by (unfold bn_of; lia).
+  induction Hp as [|x ra y rb al Hs Hp IH|x ra rb al Hs Hp IH|ra y rb al Hs Hp IH];
+    intros pa pb Ha Hb fuel acc Hf.
+  - apply trace_g_zero.
+  - destruct fuel as [|f]; [cbn in Hf; lia|].
+    pose proof (blocks_lookup w clamp_none a b pa (x :: ra) pb (y :: rb) Ha Hb) as Hl.
+    rewrite (surjective_pairing (pcell w clamp_none (x :: ra) (y :: rb))), Hs in Hl.
+    assert (Hpos : 0 < idx (bn_of b) (x :: ra) (y :: rb)) by (apply idx_pos; [exact Hbn|cbn; lia]).
+    rewrite (trace_g_step _ _ _ _ _ _ _ Hpos Hl).
+    replace (move (bn_of b) (idx (bn_of b) (x :: ra) (y :: rb)) SMatch) with (idx (bn_of b) ra rb)
+      by (unfold move, idx; cbn [length]; rewrite !Nat2Z.inj_succ; lia).
+    rewrite (IH (pa ++ [x]) (pb ++ [y])); [rewrite <- app_assoc; reflexivity| | |cbn in Hf; lia];
+      rewrite <- app_assoc; assumption.
+  - destruct fuel as [|f]; [cbn in Hf; lia|].
+    pose proof (blocks_lookup w clamp_none a b pa (x :: ra) pb rb Ha Hb) as Hl.
+    rewrite (surjective_pairing (pcell w clamp_none (x :: ra) rb)), Hs in Hl.
+    assert (Hpos : 0 < idx (bn_of b) (x :: ra) rb) by (apply idx_pos; [exact Hbn|cbn; lia]).
+    rewrite (trace_g_step _ _ _ _ _ _ _ Hpos Hl).
+    replace (move (bn_of b) (idx (bn_of b) (x :: ra) rb) SDel) with (idx (bn_of b) ra rb)
+      by (unfold move, idx; cbn [length]; rewrite !Nat2Z.inj_succ; lia).
+    rewrite (IH (pa ++ [x]) pb); [rewrite <- app_assoc; reflexivity| |assumption|cbn in Hf; lia];
+      rewrite <- app_assoc; assumption.
+  - destruct fuel as [|f]; [cbn in Hf; lia|].
+    pose proof (blocks_lookup w clamp_none a b pa ra pb (y :: rb) Ha Hb) as Hl.
+    rewrite (surjective_pairing (pcell w clamp_none ra (y :: rb))), Hs in Hl.
+    assert (Hpos : 0 < idx (bn_of b) ra (y :: rb)) by (apply idx_pos; [exact Hbn|cbn; lia]).
+    rewrite (trace_g_step _ _ _ _ _ _ _ Hpos Hl).
+    replace (move (bn_of b) (idx (bn_of b) ra (y :: rb)) SIns) with (idx (bn_of b) ra rb)
+      by (unfold move, idx; cbn [length]; rewrite !Nat2Z.inj_succ; lia).
+    rewrite (IH pa (pb ++ [y])); [rewrite <- app_assoc; reflexivity|assumption| |cbn in Hf; lia];
+      rewrite <- app_assoc; assumption.
+Qed.
+
+End GlobalPath.
+
+(* the weights a covering scorer defines *)
+Definition weights (g : scorer) : byte -> byte -> Z :=
+  fun x y => match g x y with Ok z => z | _ => 0 end.
+
+Lemma covers_agrees : forall g a b, covers_g g a b -> agrees (weights g) g a b.
+Proof.
+  intros g a b H x y Hx Hy. destruct (H x y Hx Hy) as [z Hz]. unfold weights. rewrite Hz. reflexivity.
+Qed.
+
+Lemma global_g_run_w : forall w g a b, agrees w g a b ->
+  exists al, global_g g a b = Ok (al, fst (pcell w clamp_none (rev a) (rev b)))
+    /\ consumes al = (length a, length b)
+    /\ fscore w SNone a b al = Some (fst (pcell w clamp_none (rev a) (rev b))).
+Proof.
+  intros w g a b Hag.
+  destruct (global_path w _ (rev a) (rev b) (le_n _)) as (al & Hc & Hs & _ & Hp).
+  exists al. rewrite !rev_involutive in Hs. rewrite !rev_length in Hc.
+  split; [|split; assumption].
+  unfold global_g. rewrite (blocks_ok w clamp_none g a b Hag). cbn [obind].
+  set (bl := concat (table_spec w clamp_none a b)).
+  assert (Hlen : length bl = (S (length a) * S (length b))%nat) by apply blocks_length.
+  assert (Hidx : Z.of_nat (length bl) - 1 = idx (bn_of b) (rev a) (rev b)).
+  { rewrite Hlen. unfold idx, bn_of. rewrite !rev_length. lia. }
+  fold (bn_of b). rewrite Hidx.
+  rewrite (trace_g_ptr w a b (rev a) (rev b) al Hp [] [] eq_refl eq_refl)
+    by (rewrite Hlen, !rev_length; nia).
+  cbn [obind]. rewrite app_nil_r.
+  unfold last_score.
+  replace (Nat.pred (length bl)) with (Z.to_nat (idx (bn_of b) (rev a) (rev b))) by lia.
+  unfold bl. rewrite (blocks_lookup w clamp_none a b [] (rev a) [] (rev b) eq_refl eq_refl).
+  reflexivity.
+Qed.
+
+Lemma global_g_run : forall g a b, covers_g g a b ->
+  exists al, global_g g a b = Ok (al, fst (pcell (weights g) clamp_none (rev a) (rev b)))
+    /\ consumes al = (length a, length b)
+    /\ fscore (weights g) SNone a b al = Some (fst (pcell (weights g) clamp_none (rev a) (rev b))).
+Proof. intros g a b Hcov. apply global_g_run_w. apply covers_agrees. exact Hcov. Qed.
+
+Theorem global_valid_g : forall g a b, covers_g g a b ->
+  exists al s, global_g g a b = Ok (al, s)
+    /\ consumes al = (length a, length b)
+    /\ score_g g a b al = Ok s.
+Proof.
+  intros g a b Hcov. destruct (global_g_run g a b Hcov) as (al & Hr & Hc & Hs).
+  exists al, (fst (pcell (weights g) clamp_none (rev a) (rev b))).
+  split; [exact Hr|]. split; [exact Hc|].
+  unfold score_g. rewrite (score_from_fscore (weights g) g al SNone a b (covers_agrees g a b Hcov)).
+  rewrite Hs. reflexivity.
+Qed.
